@@ -1,12 +1,12 @@
 package main
 
 import (
-	"strconv"
-	"strings"
 	"encoding/json"
 	"flag"
 	"fmt"
 	"os"
+	"strconv"
+	"strings"
 	"time"
 
 	"verif/engine/gosym"
@@ -35,6 +35,8 @@ func main() {
 		}
 	case "run":
 		runCmd(os.Args[2:])
+	case "replay":
+		replayCmd(os.Args[2:])
 	default:
 		fmt.Println("unknown command")
 		os.Exit(2)
@@ -97,4 +99,61 @@ func explore(args []string) {
 	for k, v := range res.Violations {
 		fmt.Printf("VIOL %s x%d vals=%v msg=%s\n", k, v.Count, v.Vals, v.Msg)
 	}
+}
+
+// replayCmd re-runs one recorded counterexample natively against /repo's working tree:
+// vcheck replay /verif/replay/<prop>/<file>.json   (exit 1 if it reproduces, 0 if not)
+func replayCmd(args []string) {
+	if len(args) != 1 {
+		fmt.Println("usage: vcheck replay <replay.json>")
+		os.Exit(2)
+	}
+	b, err := os.ReadFile(args[0])
+	if err != nil {
+		fmt.Println(err)
+		os.Exit(2)
+	}
+	var rf struct {
+		Property string            `json:"property"`
+		Pkg      string            `json:"pkg"`
+		Harness  string            `json:"harness"`
+		Kind     string            `json:"kind"`
+		Label    string            `json:"label"`
+		Tags     map[string]string `json:"tags"`
+		Sig      string            `json:"sig"`
+	}
+	if err := json.Unmarshal(b, &rf); err != nil {
+		fmt.Println(err)
+		os.Exit(2)
+	}
+	module := moduleOfRepo()
+	rp, _ := newReplayer(module)
+	v := &gosym.Violation{Harness: rf.Harness, Pkg: module + "/" + rf.Pkg, Kind: rf.Kind, Label: rf.Label, Tags: rf.Tags, Sig: rf.Sig, ReplayFile: args[0]}
+	for k := range props {
+		if props[k].ID != rf.Property {
+			continue
+		}
+		for _, h := range props[k].Harnesses {
+			if h.Func == rf.Harness && (h.Opts.Sched || h.Opts.MapOrder) {
+				v.SchedDependent = true
+			}
+		}
+	}
+	rp.replayOne(v)
+	fmt.Println(v.ReplayOut)
+	if v.Replayed {
+		fmt.Printf("REPRODUCED property=%s %s\n", rf.Property, rf.Sig)
+		os.Exit(1)
+	}
+	fmt.Printf("not reproduced property=%s %s\n", rf.Property, rf.Sig)
+}
+
+func moduleOfRepo() string {
+	b, _ := os.ReadFile(repoDir + "/go.mod")
+	for _, l := range strings.Split(string(b), "\n") {
+		if strings.HasPrefix(l, "module ") {
+			return strings.TrimSpace(l[len("module "):])
+		}
+	}
+	return ""
 }
